@@ -349,7 +349,42 @@ func c20Gen(r *vh.Rand, tier string, n int, emit func(any)) {
 	for i, l := range infos {
 		tags[i] = l.Lang
 	}
-	// finite scopes first: every Direction byte, every LangID (plus out-of-range ones), every tag of the table
+	// the exhaustive Go-side pass (every tier): all code points through every lookup, the pair grid, every one-byte
+	// edit of every tag; what it finds becomes ordinary cases, whose run repeats the comparison and reports it
+	for _, x := range c20ScanAll(c20CheckCP) {
+		emit(c20Input{K: "cp", R: x.a})
+	}
+	for _, x := range c20ScanPairs() {
+		emit(c20Input{K: "pair", A: x.a, B: x.b})
+	}
+	rbase := make([]byte, 3) // a random base string
+	for i := range rbase {
+		rbase[i] = "abcxyzABZ019-_@ \x00\x7f"[r.Intn(22)]
+	}
+	for _, s := range c20ScanLangs([][]byte{rbase, []byte("EN\x00us"), {}, {0xc3, 0xa9}, r.Bytes(4)}) {
+		emit(c20Input{K: "lang", S: s})
+	}
+	// every byte value inserted at every position of a few short bases, through the Coq model as well: a canonical
+	// tag without and one with a subtag, a non-canonical spelling of the latter, the random base
+	dashed := ""
+	for _, t := range tags {
+		if len(t) <= 5 && len(c20Primary(t)) < len(t) && (dashed == "" || len(t) < len(dashed)) {
+			dashed = t
+		}
+	}
+	lbases := [][]byte{[]byte("fr"), []byte(dashed), rbase}
+	if vs := c20Variants(dashed); len(vs) > 1 {
+		lbases = append(lbases, vs[1+r.Intn(len(vs)-1)])
+	}
+	for _, base := range lbases {
+		for pos := 0; pos <= len(base); pos++ {
+			for c := 0; c < 256; c++ {
+				s := append(append(append([]byte{}, base[:pos]...), byte(c)), base[pos:]...)
+				emit(c20Input{K: "lang", S: s})
+			}
+		}
+	}
+	// finite scopes: every Direction byte, every LangID (plus out-of-range ones), every tag of the table
 	for d := 0; d < 256; d++ {
 		emit(c20Input{K: "dir", D: d})
 	}
@@ -360,7 +395,12 @@ func c20Gen(r *vh.Rand, tier string, n int, emit func(any)) {
 	for _, t := range tags {
 		emit(c20Input{K: "lang", S: []byte(t)})
 	}
-	for _, s := range []string{"", "-", "--", "-x", "x-", "a", "zzzz", "fr-be", "ml-in-x", "ml_IN", "ks-deva", "und-zsye", "\xff", "\xc3\xbe", "\xc3\xbf", "\xc4\x80", "a\xe2\x82z", "EN\x00us"} {
+	for _, i := range r.Perm(len(tags))[:40] { // spellings: upper case, capitalised, '_' and '@' separators, mixed
+		for _, v := range c20Variants(tags[i])[1:] {
+			emit(c20Input{K: "lang", S: v})
+		}
+	}
+	for _, s := range []string{"fr\x00", "\x00fr", "f\x00r", "\x00", "\x00\x00", "en-\x00us", "fr@be", "FR_BE@x", "", "-", "--", "-x", "x-", "a", "zzzz", "fr-be", "ml-in-x", "ml_IN", "ks-deva", "und-zsye", "\xff", "\xc3\xbe", "\xc3\xbf", "\xc4\x80", "a\xe2\x82z", "EN\x00us"} {
 		emit(c20Input{K: "lang", S: []byte(s)})
 	}
 	nl := n / 10
@@ -369,12 +409,6 @@ func c20Gen(r *vh.Rand, tier string, n int, emit func(any)) {
 	}
 	for i := 0; i < nl; i++ {
 		emit(c20Input{K: "lang", S: c20RandomLang(r, tags)})
-	}
-	// thorough / search: direct sweep of all 0x110000 code points (Go side), in chunks of 0x8000
-	if tier != "quick" {
-		for lo := int64(0); lo < 0x110000; lo += 0x8000 {
-			emit(c20Input{K: "sweep", Lo: lo, Hi: lo + 0x8000})
-		}
 	}
 	// the whole algorithmic Hangul scope, on every run: (L range +- 1) x (V range, 8 past its end, 1 before), and
 	// LV / LVT / non-syllables x (T range +- 2)
@@ -443,7 +477,7 @@ func c20Run(o *vh.Out, inAny any) {
 	var term, key string
 	class := in.K
 	var panicked any
-	sweepFail := ""
+	sweepFail, goFail := "", ""
 	func() {
 		defer func() { panicked = recover() }()
 		switch in.K {
@@ -478,6 +512,7 @@ func c20Run(o *vh.Out, inAny any) {
 			if dok {
 				o.Count("cp:decomposable")
 			}
+			_, goFail = c20CheckCP(r)
 			if mok {
 				o.Count("cp:mirrored")
 			}
@@ -491,6 +526,7 @@ func c20Run(o *vh.Out, inAny any) {
 				key = term
 				class = "pair:composes"
 			}
+			_, goFail = c20CheckPair(a, b)
 		case "dir":
 			d := di.Direction(uint8(in.D))
 			sw := d.SwitchAxis()
@@ -519,6 +555,7 @@ func c20Run(o *vh.Out, inAny any) {
 			if ok {
 				class = "lang:known"
 			}
+			_, goFail = c20CheckLang(in.S)
 		case "id":
 			id := language.LangID(uint16(in.ID))
 			tag := id.Language()
@@ -545,9 +582,12 @@ func c20Run(o *vh.Out, inAny any) {
 	if sweepFail != "" {
 		o.Fail(idx, "sweep", sweepFail)
 	}
+	if goFail != "" {
+		o.Fail(idx, "oracle", goFail)
+	}
 }
 
-// ---- exhaustive sweep (thorough): the implementation against tables expanded by a plain linear walk ----
+// ---- the tables expanded by a plain linear walk (compared with the lookups on every code point: c20_full.go) ----
 
 type c20Expected struct {
 	gc, cc, lb, gb, wb []int16 // class id per code point, -1 none, -3 in two classes
@@ -620,61 +660,12 @@ func c20Expected_() *c20Expected {
 	return e
 }
 
-// c20Sweep checks every code point of [lo, hi) and returns the first disagreement ("" if none).
+// c20Sweep checks every code point of [lo, hi) (stored "sweep" inputs of earlier runs; the generator now scans all
+// code points on every tier, see c20_full.go) and returns the first disagreement ("" if none).
 func c20Sweep(lo, hi int64) string {
-	e := c20Expected_()
-	ids := c20ClassIDs()
-	d1, d2, comp := ucd.VerifC20Decompositions()
-	lbDefault := int64(ids.lb[ucd.BreakXX])
 	for x := lo; x < hi && x < 0x110000; x++ {
-		r := rune(x)
-		bad := func(what string, got, want int64) string {
-			return fmt.Sprintf("U+%04X: %s = %d, linear scan of the tables gives %d (-3: in two classes)", x, what, got, want)
-		}
-		if got, want := c20ID(ids.gc, ucd.LookupType(r)), int64(e.gc[x]); got != want {
-			return bad("LookupType", got, want)
-		}
-		want := int64(e.cc[x])
-		if want == -1 {
-			want = 0
-		}
-		if got := int64(ucd.LookupCombiningClass(r)); got != want {
-			return bad("LookupCombiningClass", got, want)
-		}
-		want = int64(e.lb[x])
-		if want == -1 {
-			want = lbDefault
-		}
-		if got := c20ID(ids.lb, ucd.LookupLineBreakClass(r)); got != want {
-			return bad("LookupLineBreakClass", got, want)
-		}
-		if got, want := c20ID(ids.gb, ucd.LookupGraphemeBreakClass(r)), int64(e.gb[x]); got != want {
-			return bad("LookupGraphemeBreakClass", got, want)
-		}
-		if got, want := c20ID(ids.wb, ucd.LookupWordBreakClass(r)), int64(e.wb[x]); got != want {
-			return bad("LookupWordBreakClass", got, want)
-		}
-		if got, want := int64(uint32(language.LookupScript(r))), int64(e.script[x]); got != want {
-			return bad("LookupScript", got, want)
-		}
-		m, _ := ucd.LookupMirrorChar(r)
-		if m2, _ := ucd.LookupMirrorChar(m); m2 != r {
-			return fmt.Sprintf("U+%04X: mirror of mirror is U+%04X", x, m2)
-		}
-		a, b, ok := ucd.Decompose(r)
-		if ok {
-			_, single := d1[r]
-			pair, isPair := d2[r]
-			excluded := single || (isPair && comp[pair] == 0)
-			c, cok := ucd.Compose(a, b)
-			if !excluded && (!cok || c != r) {
-				return fmt.Sprintf("U+%04X decomposes to (U+%04X, U+%04X) which composes to (U+%04X, %v)", x, a, b, c, cok)
-			}
-			if cok {
-				if a2, b2, ok2 := ucd.Decompose(c); !ok2 || a2 != a || b2 != b {
-					return fmt.Sprintf("Compose(U+%04X, U+%04X) = U+%04X which decomposes to (U+%04X, U+%04X, %v)", a, b, c, a2, b2, ok2)
-				}
-			}
+		if _, msg := c20CheckCP(rune(x)); msg != "" {
+			return msg
 		}
 	}
 	return ""
